@@ -107,4 +107,138 @@ theorem parseAll_no_panic {β : Type} (p : String → Outcome β) (hp : ∀ s, p
       | panic => exact absurd hr ih
       | ok vs => simp
 
+/-- an entry that parses is in the parsed list … -/
+theorem parsesTo_mem {β : Type} (p : String → Outcome β) (l : List String) (vs : List β) (h : ParsesTo p l vs)
+    (s : String) (hs : s ∈ l) (v : β) (hv : p s = .ok v) : v ∈ vs := by
+  unfold ParsesTo at h
+  have : p s ∈ l.map p := List.mem_map.mpr ⟨s, hs, rfl⟩
+  rw [h, hv] at this
+  obtain ⟨v', hv', e⟩ := List.mem_map.mp this
+  cases e
+  exact hv'
+
+/-- … and the parsed list holds nothing but the parse results of the entries -/
+theorem parsesTo_mem_rev {β : Type} (p : String → Outcome β) (l : List String) (vs : List β) (h : ParsesTo p l vs)
+    (v : β) (hv : v ∈ vs) : ∃ s ∈ l, p s = .ok v := by
+  unfold ParsesTo at h
+  have : Outcome.ok v ∈ vs.map Outcome.ok := List.mem_map.mpr ⟨v, hv, rfl⟩
+  rw [← h] at this
+  obtain ⟨s, hs, e⟩ := List.mem_map.mp this
+  exact ⟨s, hs, e⟩
+
+theorem parsesTo_nil {β : Type} (p : String → Outcome β) (vs : List β) (h : ParsesTo p [] vs) : vs = [] := by
+  unfold ParsesTo at h
+  cases vs with
+  | nil => rfl
+  | cons _ _ => simp at h
+
+/-- what `covert_blocklist_public_addrs` appends to the covert blocklist -/
+def publicExtra {Net : Type} (raw : Raw) (ifaces : Option (List Net)) : List Net :=
+  if raw.publicAddrs then ifaces.getD [] else []
+
+/-- the parsed covert blocklist: the configured entries, then the local interface subnets if asked for -/
+theorem parseBlocklists_block {Net Pat : Type} (cidr : String → Outcome Net) (re : String → Outcome Pat)
+    (ifaces : Option (List Net)) (raw : Raw) (parsed : Parsed Net Pat)
+    (h : parseBlocklists cidr re ifaces raw = .ok parsed) :
+    ∃ blk, ParsesTo cidr raw.block blk ∧ parsed.block = blk ++ publicExtra raw ifaces := by
+  unfold parseBlocklists at h
+  cases h1 : parseAll cidr raw.block with
+  | err => simp [h1] at h
+  | panic => simp [h1] at h
+  | ok b1 =>
+    cases h2 : parseAll re raw.domains with
+    | err => simp [h1, h2] at h
+    | panic => simp [h1, h2] at h
+    | ok d1 =>
+      cases h3 : parseAll cidr raw.phantom with
+      | err => simp [h1, h2, h3] at h
+      | panic => simp [h1, h2, h3] at h
+      | ok p1 =>
+        cases h4 : parseAll cidr raw.allow with
+        | err => simp [h1, h2, h3, h4] at h
+        | panic => simp [h1, h2, h3, h4] at h
+        | ok a1 =>
+          simp only [h1, h2, h3, h4, Outcome.ok.injEq] at h
+          subst h
+          refine ⟨b1, (parseAll_ok_iff cidr raw.block b1).mp h1, ?_⟩
+          unfold publicExtra
+          cases raw.publicAddrs <;> cases ifaces <;> simp
+
+/-! ## the nil tests of the statistics printer -/
+
+/-- the two optional cache fields the model knows -/
+def cacheNames : List String := ["ipCacheLive", "ipCacheNonLive"]
+
+open CJ.Liveness in
+theorem runDerefs_guarded (ds : List Deref) (h : ∀ d ∈ ds, d.field ∈ d.guards) (live nonLive : Option Cache) :
+    runDerefs live nonLive ds = .ok () := by
+  induction ds with
+  | nil => rfl
+  | cons d ds ih =>
+    have ih' := ih (fun d' hd' => h d' (List.mem_cons_of_mem _ hd'))
+    simp only [runDerefs]
+    split
+    · rename_i hg
+      have : (fieldOf live nonLive d.field).isSome = true :=
+        List.all_eq_true.mp hg d.field (h d (List.mem_cons_self ..))
+      simp only [this, if_true]
+      exact ih'
+    · exact ih'
+
+open CJ.Liveness in
+/-- a call whose guards hold and whose own field is nil panics, wherever it stands in the list -/
+theorem runDerefs_panics (ds : List Deref) (live nonLive : Option Cache) (d : Deref) (hd : d ∈ ds)
+    (hg : d.guards.all (fun g => (fieldOf live nonLive g).isSome) = true)
+    (hf : (fieldOf live nonLive d.field).isSome = false) : runDerefs live nonLive ds = .panic := by
+  induction ds with
+  | nil => cases hd
+  | cons d' ds ih =>
+    simp only [runDerefs]
+    rcases List.mem_cons.mp hd with rfl | hd
+    · simp only [hg, if_true, hf, Bool.false_eq_true, if_false]
+    · split
+      · split
+        · exact ih hd
+        · rfl
+      · exact ih hd
+
+open CJ.Liveness in
+/-- **The printer cannot panic iff every call is guarded by a test of its own field** (for tables that only
+name the two cache fields) -/
+theorem no_panic_iff_self_guarded (ds : List Deref)
+    (hk : ∀ d ∈ ds, d.field ∈ cacheNames ∧ ∀ g ∈ d.guards, g ∈ cacheNames) :
+    (∀ live nonLive, runDerefs live nonLive ds ≠ .panic) ↔ ∀ d ∈ ds, d.field ∈ d.guards := by
+  constructor
+  · intro h d hd
+    apply Classical.byContradiction
+    intro hnot
+    obtain ⟨hfk, hgk⟩ := hk d hd
+    have c0 : Cache := .map 0 {}
+    simp only [cacheNames, List.mem_cons, List.not_mem_nil, or_false] at hfk
+    rcases hfk with hf | hf
+    · -- the unguarded call goes through the live cache: configure only the non-live one
+      apply h none (some c0)
+      apply runDerefs_panics ds none (some c0) d hd
+      · rw [List.all_eq_true]
+        intro g hg
+        have hgn := hgk g hg
+        simp only [cacheNames, List.mem_cons, List.not_mem_nil, or_false] at hgn
+        rcases hgn with e | e
+        · exact absurd (by rw [hf, ← e]; exact hg) hnot
+        · simp [fieldOf, e]
+      · simp [fieldOf, hf]
+    · apply h (some c0) none
+      apply runDerefs_panics ds (some c0) none d hd
+      · rw [List.all_eq_true]
+        intro g hg
+        have hgn := hgk g hg
+        simp only [cacheNames, List.mem_cons, List.not_mem_nil, or_false] at hgn
+        rcases hgn with e | e
+        · simp [fieldOf, e]
+        · exact absurd (by rw [hf, ← e]; exact hg) hnot
+      · simp [fieldOf, hf]
+  · intro h live nonLive
+    rw [runDerefs_guarded ds h]
+    intro e; cases e
+
 end CJ.Config
